@@ -183,7 +183,9 @@ def ret_sx(fn):
 INST_DRIVER = ('#include "xtl/xclosure.hpp"\n'
                'namespace wxtl { struct Obj { int v; bool operator==(const Obj& o) const { return v == o.v; } };\n'
                'void use(Obj& o, Obj v) { xtl::xclosure_wrapper<Obj&> r(o); xtl::xclosure_wrapper<Obj> w(static_cast<Obj&&>(v));\n'
-               '  (void)r.get(); (void)w.get(); (void)&r; (void)&w; const auto& cr = r; const auto& cw = w; (void)cr.get(); (void)cw.get(); (void)&cr; (void)&cw; } }\n')
+               '  (void)r.get(); (void)w.get(); (void)&r; (void)&w; const auto& cr = r; const auto& cw = w; (void)cr.get(); (void)cw.get(); (void)&cr; (void)&cw;\n'
+               '  xtl::xclosure_pointer<Obj&> pr(o); xtl::xclosure_pointer<Obj> pv(static_cast<Obj&&>(v)); (void)*pr; (void)*pv; (void)pr.operator->(); (void)pv.operator->();\n'
+               '  const auto& cpr = pr; const auto& cpv = pv; (void)*cpr; (void)*cpv; } }\n')
 
 
 def place_of(d, n, env, depth=0):
@@ -217,6 +219,14 @@ def place_of(d, n, env, depth=0):
         return deref(place_of(d, ks[0], env, depth))
     if k == "UnaryOperator" and n.get("opcode") == "&":
         return addr(place_of(d, ks[0], env, depth))
+    if k == "CXXOperatorCallExpr" and depth < 6 and len(ks) == 2:
+        # unary operator on an object of the class (`*operator->()` is written as a call; `**this` as an operator call)
+        c = ir.strip(ks[0])
+        tgt = d.by_id.get((c.get("referencedDecl") or {}).get("id"))
+        if tgt is not None and ir.body(tgt) is not None:
+            rets = [x for x in ir.walk_expr(ir.body(tgt)) if x.get("kind") == "ReturnStmt" and ir.ekids(x)]
+            if len(rets) == 1:
+                return place_of(d, ir.ekids(rets[0])[0], {}, depth + 1)
     if k in ("CallExpr", "CXXMemberCallExpr") and depth < 6:
         c = ir.strip(ks[0])
         rid = c.get("referencedMemberDecl") if c.get("kind") == "MemberExpr" else (c.get("referencedDecl") or {}).get("id")
@@ -248,7 +258,11 @@ def pshow(x):
     return str(x)
 
 
+REFERENT_ACCESSORS = set()
+
+
 def rule_defuse(rep):
+    REFERENT_ACCESSORS.clear()
     rep.rule("C07.defuse", "inside xclosure_wrapper / xclosure_pointer: an lvalue closure stores the address of its reference parameter and "
                            "dereferences it, a value closure stores and returns the value; nothing but a constructor assigns the stored "
                            "pointer (no rebinding); assignment, swap and equality go through deref(); copy/move construction is defaulted")
@@ -302,7 +316,45 @@ def rule_defuse(rep):
                 found[("addr", is_ref)] = True
                 (rep.holds if got == want else rep.violates)(R, label, kind + ": address of the referent", where=where,
                                                              detail="returns %s" % pshow(got) if got == want else "returns `%s`, expected `%s`" % (pshow(got), pshow(want)))
-    need = [(w_, r_) for w_ in ("ctor", "get", "addr") for r_ in (True, False)]
+    # further nullary members of the wrapper that designate the referent (a private ref() accessor): accepted wherever deref(m_wrappee) is
+    for cls in di.walk():
+        if cls.get("kind") != "ClassTemplateSpecializationDecl" or cls.get("name") != "xclosure_wrapper" or "Obj" not in " ".join(ir.template_args(cls)):
+            continue
+        is_ref = "&" in " ".join(ir.template_args(cls))
+        for fn in ir.kids(cls):
+            if fn.get("kind") == "CXXMethodDecl" and ir.has_body(fn) and not ir.params(fn) and fn.get("name") not in ("get", "operator&"):
+                rets = [x for x in ir.walk_expr(ir.body(fn)) if x.get("kind") == "ReturnStmt" and ir.ekids(x)]
+                if len(rets) == 1 and place_of(di, ir.ekids(rets[0])[0], {}) == (("deref", ("stored",)) if is_ref else ("stored",)):
+                    REFERENT_ACCESSORS.add(fn.get("name"))
+    # xclosure_pointer: operator* designates the stored object, operator-> its address, the constructors store their parameter
+    for cls in di.walk():
+        if cls.get("kind") != "ClassTemplateSpecializationDecl" or cls.get("name") != "xclosure_pointer" or "Obj" not in " ".join(ir.template_args(cls)):
+            continue
+        targ = " ".join(ir.template_args(cls)).replace("wxtl::", "")
+        for fn in ir.kids(cls):
+            if fn.get("kind") not in ("CXXMethodDecl", "CXXConstructorDecl") or not ir.has_body(fn):
+                continue
+            label = "xclosure_pointer<%s>::%s" % (targ, fn.get("name"))
+            if fn.get("kind") == "CXXConstructorDecl":
+                if fn.get("explicitlyDefaulted") or fn.get("isImplicit") or not ir.params(fn):
+                    continue
+                inits = [k_ for k_ in ir.kids(fn) if k_.get("kind") == "CXXCtorInitializer" and (k_.get("anyInit") or {}).get("name") == "m_wrappee"]
+                if not inits or not ir.ekids(inits[0]):
+                    continue
+                got = place_of(di, ir.ekids(inits[0])[0], {})
+                want = ("var", ir.params(fn)[0].get("name"))
+                found[("pctor", "&" in targ)] = True
+                (rep.holds if got == want else rep.violates)(R, label + "(%s)" % ir.wtype(ir.params(fn)[0]).replace("wxtl::", ""), "binds/stores its parameter", where=di.where(fn),
+                                                             detail="m_wrappee <- %s" % pshow(got) if got == want else "m_wrappee is initialised with `%s`, expected `%s`" % (pshow(got), pshow(want)))
+                continue
+            rets = [x for x in ir.walk_expr(ir.body(fn)) if x.get("kind") == "ReturnStmt" and ir.ekids(x)]
+            if fn.get("name") in ("operator*", "operator->") and len(rets) == 1:
+                got = place_of(di, ir.ekids(rets[0])[0], {})
+                want = ("stored",) if fn.get("name") == "operator*" else ("addr", ("stored",))
+                found[("p" + fn.get("name"), "&" in targ)] = True
+                (rep.holds if got == want else rep.violates)(R, label, "designates the stored referent", where=di.where(fn),
+                                                             detail=pshow(got) if got == want else "returns `%s`, expected `%s`" % (pshow(got), pshow(want)))
+    need = [(w_, r_) for w_ in ("ctor", "get", "addr", "pctor", "poperator*", "poperator->") for r_ in (True, False)]
     missing = [k_ for k_ in need if k_ not in found]
     if missing:
         rep.broke("instantiated xclosure_wrapper members not found: %s" % missing)
@@ -321,9 +373,10 @@ def rule_defuse(rep):
                 return "this"
             if a[0] == "mem" and a[2] == "m_wrappee" and a[1][0] == "ref" and a[1][1] in ps:
                 return a[1][1]
-        if t[0] == "call" and len(t) == 2 and t[1] in (("ref", "get"), ("mem", ("this",), "get")):
+        names_ = {"get"} | REFERENT_ACCESSORS
+        if t[0] == "call" and len(t) == 2 and ((t[1][0] == "ref" and t[1][1] in names_) or (t[1][0] == "mem" and t[1][1] == ("this",) and t[1][2] in names_)):
             return "this"
-        if t[0] == "call" and len(t) == 2 and t[1][0] == "mem" and t[1][2] == "get" and t[1][1][0] == "ref" and t[1][1][1] in ps:
+        if t[0] == "call" and len(t) == 2 and t[1][0] == "mem" and t[1][2] in names_ and t[1][1][0] == "ref" and t[1][1][1] in ps:
             return t[1][1][1]
         return None
     for fn in ir.functions(d):
@@ -388,28 +441,6 @@ def rule_defuse(rep):
             ok = rt is not None and rt[0] == "bin" and rt[1] == "==" and {referent(rt[2], ps), referent(rt[3], ps)} == {"this", ps[0]}
             (rep.holds if ok else rep.violates)(R, label, "equality compares the referents", where=where,
                                                 detail="referents compared" if ok else "expected deref(m_wrappee) == rhs.deref(rhs.m_wrappee); found `%s`" % (ir.show(rt) if rt else "?"))
-        elif cname == "xclosure_pointer" and name in ("operator*", "operator->"):
-            inner = rt
-            while inner is not None and inner[0] == "cast":
-                inner = inner[3]
-            if name == "operator*":
-                ok = inner in (("mem", ("this",), "m_wrappee"), ("ref", "m_wrappee"))
-                want = "m_wrappee"
-            else:
-                ok = inner in (("call", ("ref", "addressof"), ("mem", ("this",), "m_wrappee")), ("un", "&", ("mem", ("this",), "m_wrappee")),
-                               ("call", ("ref", "addressof"), ("ref", "m_wrappee")), ("un", "&", ("ref", "m_wrappee")))
-                want = "addressof(m_wrappee)"
-            (rep.holds if ok else rep.violates)(R, label, "designates the stored referent", where=where,
-                                                detail=ir.show(rt) if ok else "expected %s; found `%s`" % (want, ir.show(rt) if rt else "?"))
-        elif cname == "xclosure_pointer" and fn.get("kind") == "CXXConstructorDecl":
-            inits = [k for k in ir.kids(fn) if k.get("kind") == "CXXCtorInitializer"]
-            it = ir.sx(ir.ekids(inits[0])[0]) if inits and ir.ekids(inits[0]) else None
-            inner = it
-            while inner is not None and inner[0] == "construct" and len(inner) == 3:
-                inner = inner[2]
-            ok = inner in (("ref", ps[0]), ("call", ("ref", "move"), ("ref", ps[0])), ("call", ("ref", "forward"), ("ref", ps[0])))
-            (rep.holds if ok else rep.violates)(R, label + "(%s)" % ir.wtype(ir.params(fn)[0]), "binds/stores its parameter", where=where,
-                                                detail=ir.show(it) if ok else "expected m_wrappee(e); found `%s`" % (ir.show(it) if it else "?"))
     # defaulted copy/move construction (same referent)
     for n in d.walk():
         if n.get("kind") == "CXXConstructorDecl" and n.get("explicitlyDefaulted") and ir.in_repo(n):
